@@ -1,5 +1,6 @@
 #!/usr/bin/env python3
 
+import numbers
 import numpy as np
 from scipy import special
 
@@ -42,9 +43,9 @@ def piersonMoskowitzSpectrum( w, Uw, alpha=0.0081, beta=0.74, g=9.81 ):
     >>> rst = piersonMoskowitzSpectrum( w, Uw, alpha=0.0081, 
     ...                                 beta=1.25, g=9.81 )
     '''
-    if not isinstance( w, int ) and not isinstance( w, float ):
+    if not isinstance( w, numbers.Real ):
         raise ValueError( "w should be a scalar" )
-    if not isinstance( Uw, int ) and not isinstance( Uw, float ):
+    if not isinstance( Uw, numbers.Real ):
         raise ValueError( "Uw should be a scalar" )
 
     rst = alpha * g * g / np.power( w, 5 ) * \
@@ -91,9 +92,9 @@ def jonswapSpectrum( w, wp, alpha=0.0081, beta=1.25, gamma=3.3, g=9.81 ):
     >>> wp = 0.51
     >>> rst = jonswapSpectrum( w, wp, alpha=0.0081, beta=1.25, gamma=3.3, g=9.81 )
     '''
-    if not isinstance( w, int ) and not isinstance( w, float ):
+    if not isinstance( w, numbers.Real ):
         raise ValueError( "w should be a scalar" )
-    if not isinstance( wp, int ) and not isinstance( wp, float ):
+    if not isinstance( wp, numbers.Real ):
         raise ValueError( "wp should be a scalar" )
 
     sigma = 0.07 
@@ -138,11 +139,11 @@ def isscSpectrum( w, wp, Hs ):
     >>> Hs = 20
     >>> rst = isscSpectrum( w, wp, Hs )
     '''
-    if not isinstance( w, int ) and not isinstance( w, float ):
+    if not isinstance( w, numbers.Real ):
         raise ValueError( "w should be a scalar" )
-    if not isinstance( wp, int ) and not isinstance( wp, float ):
+    if not isinstance( wp, numbers.Real ):
         raise ValueError( "wp should be a scalar" )
-    if not isinstance( Hs, int ) and not isinstance( Hs, float ):
+    if not isinstance( Hs, numbers.Real ):
         raise ValueError( "Hs should be a scalar" )
     
     wwp4 = np.power( wp / w, 4 )
@@ -193,13 +194,13 @@ def gaussianSwellSpectrum( w, wp, Hs, sigma ):
     .. [Guidance2016A] Guidance Notes on Selecting Design Wave by Long 
        Term Stochastic Method
     '''
-    if not isinstance( w, int ) and not isinstance( w, float ):
+    if not isinstance( w, numbers.Real ):
         raise ValueError( "w should be a scalar" )
-    if not isinstance( wp, int ) and not isinstance( wp, float ):
+    if not isinstance( wp, numbers.Real ):
         raise ValueError( "wp should be a scalar" )
-    if not isinstance( Hs, int ) and not isinstance( Hs, float ):
+    if not isinstance( Hs, numbers.Real ):
         raise ValueError( "Hs should be a scalar" )
-    if not isinstance( sigma, int ) and not isinstance( sigma, float ):
+    if not isinstance( sigma, numbers.Real ):
         raise ValueError( "sigma should be a scalar" )
     
     twoPi = 2 * np.pi
@@ -259,19 +260,19 @@ def ochiHubbleSpectrum( w, wp1, wp2, Hs1, Hs2, lambda1, lambda2 ):
     .. [Guidance2016B] Guidance Notes on Selecting Design Wave by Long 
        Term Stochastic Method
     '''
-    if not isinstance( w, int ) and not isinstance( w, float ):
+    if not isinstance( w, numbers.Real ):
         raise ValueError( "w should be a scalar" )
-    if not isinstance( wp1, int ) and not isinstance( wp1, float ):
+    if not isinstance( wp1, numbers.Real ):
         raise ValueError( "wp1 should be a scalar" )
-    if not isinstance( wp2, int ) and not isinstance( wp2, float ):
+    if not isinstance( wp2, numbers.Real ):
         raise ValueError( "wp2 should be a scalar" )
-    if not isinstance( Hs1, int ) and not isinstance( Hs1, float ):
+    if not isinstance( Hs1, numbers.Real ):
         raise ValueError( "Hs1 should be a scalar" )
-    if not isinstance( Hs2, int ) and not isinstance( Hs2, float ):
+    if not isinstance( Hs2, numbers.Real ):
         raise ValueError( "Hs2 should be a scalar" )
-    if not isinstance( lambda1, int ) and not isinstance( lambda1, float ):
+    if not isinstance( lambda1, numbers.Real ):
         raise ValueError( "lambda1 should be a scalar" )
-    if not isinstance( lambda2, int ) and not isinstance( lambda2, float ):
+    if not isinstance( lambda2, numbers.Real ):
         raise ValueError( "lambda2 should be a scalar" )
     if wp1 >= wp2:
         raise ValueError( "wp1 must be less than wp2" )
